@@ -117,15 +117,15 @@ def safe_tuple_of_prefixes(module: Node, first: Node, second: Node) -> bool:
     return module.startswith((first + ".", f"{second}."))
 
 
-def safe_prefix_built_by_caller(module: Node, other: Node) -> bool:
-    return module == other or _helper_has_prefix(module, other + ".")
+def _caller_builds_prefix(module: Node, other: Node) -> bool:
+    return module == other or safe_prefix_built_by_caller(module, other + ".")
 
 
-def _helper_has_prefix(module: str, prefix: str) -> bool:
+def safe_prefix_built_by_caller(module: str, prefix: str) -> bool:
     return module.startswith(prefix)
 
 
-def safe_prefixes_in_tuples(modules: list[Node], aliases: dict[Node, str]) -> dict[str, str]:
+def _caller_prefixes_in_tuples(modules: list[Node], aliases: dict[Node, str]) -> dict[str, str]:
     replacements = [(name, f"{name}.", aliases[name]) for name in sorted(aliases, key=len, reverse=True)]
     labels = {}
     for module in modules:
@@ -364,3 +364,147 @@ def safe_zip_with_length_test(module: Node, prefix: Node) -> bool:
     components = module.split(".")
     expected_components = prefix.split(".")
     return len(components) >= len(expected_components) and all(a == b for a, b in zip(components, expected_components))
+
+
+# ----------------------------------------------------------------------------- further spellings of the idioms above
+
+
+def safe_prefix_by_format(module: Node, other: Node) -> bool:
+    return module == other or module.startswith("{}.".format(other)) or module.startswith("%s." % other)
+
+
+def safe_prefix_by_join_of_literal(module: Node, other: Node) -> bool:
+    return module == other or module.startswith(".".join([other, ""]))
+
+
+def safe_prefix_normalised_by_expression(module: Node, prefix: str) -> bool:
+    dotted = prefix if prefix.endswith(".") else prefix + "."
+    return module.startswith(dotted)
+
+
+def safe_prefix_normalised_by_statement(module: Node, prefix: str) -> bool:
+    if not prefix.endswith("."):
+        prefix += "."
+    return module.startswith(prefix)
+
+
+def safe_prefixes_from_comprehension(module: Node, listed: list[Node]) -> bool:
+    prefixes = tuple(f"{name}." for name in listed)
+    return module in listed or any(module.startswith(prefix) for prefix in prefixes)
+
+
+def unsafe_prefix_tuple_from_names(module: Node, listed: list[Node]) -> bool:
+    return module.startswith(tuple(listed))
+
+
+def unsafe_bound_method(module: Node, listed: list[Node]) -> bool:
+    return any(map(module.startswith, listed))
+
+
+def safe_bound_method(module: Node, listed: list[Node]) -> bool:
+    return module in listed or any(map(module.startswith, [name + "." for name in listed]))
+
+
+def safe_slice_equals_dotted(module: Node, other: Node) -> bool:
+    return module == other or module[: len(other) + 1] == other + "."
+
+
+def safe_slice_equals_dotted_prefix(module: Node, other: Node) -> bool:
+    prefix = f"{other}."
+    return module == other or module[: len(prefix)] == prefix
+
+
+def unsafe_slice_equals_raw(module: Node, other: Node) -> bool:
+    return module[: len(other)] == other
+
+
+def unsafe_suffix_by_slice(module: Node, other: Node) -> bool:
+    return module[-len(other) :] == other
+
+
+def safe_removeprefix_after_test(module: Node, other: Node) -> str:
+    if module == other or module.startswith(other + "."):
+        return "x" + module.removeprefix(other)
+    return module
+
+
+def unsafe_removeprefix_raw(module: Node, other: Node) -> str:
+    return module.removeprefix(other)
+
+
+def unsafe_commonprefix(module: Node, other: Node) -> bool:
+    import os.path
+
+    return os.path.commonprefix([module, other]) == other
+
+
+def unsafe_glob_from_name(module: Node, other: Node) -> bool:
+    import fnmatch
+
+    return fnmatch.fnmatch(module, other + "*")
+
+
+def safe_glob_with_boundary(module: Node, other: Node) -> bool:
+    import fnmatch
+
+    return module == other or fnmatch.fnmatch(module, other + ".*")
+
+
+def unsafe_zip_characters(module: Node, other: Node) -> bool:
+    return all(a == b for a, b in zip(module, other))
+
+
+def unsafe_every_prefix_by_accumulation(module: Node) -> list[str]:
+    prefixes = []
+    current = ""
+    for char in module:
+        prefixes.append(current)
+        current += char
+    return prefixes
+
+
+def unsafe_underscore_becomes_separator(module: Node) -> list[str]:
+    return module.replace("_", ".").split(".")
+
+
+def safe_name_to_path(module: Node) -> str:
+    return module.replace(".", "/")
+
+
+def safe_decorated_containment(module: Node, other: Node) -> bool:
+    return f".{other}." in f".{module}."
+
+
+def safe_rfind_conditional_expression(module: Node) -> str:
+    idx = module.rfind(".")
+    return module[:idx] if idx >= 0 else ""
+
+
+def safe_walrus_walk(module: Node) -> list[str]:
+    parents = []
+    name = module
+    while (idx := name.rfind(".")) != -1:
+        name = name[:idx]
+        parents.append(name)
+    return parents
+
+
+def safe_positions_then_cut(module: Node) -> list[str]:
+    dots = [position for position, char in enumerate(module) if char == "."]
+    return [module[:dot] for dot in dots]
+
+
+def unsafe_positions_without_test(module: Node) -> list[str]:
+    positions = [position for position, char in enumerate(module)]
+    return [module[:p] for p in positions]
+
+
+def safe_regex_positions(module: Node) -> list[str]:
+    return [module[: match.start()] for match in re.finditer(r"\.", module)]
+
+
+def safe_index_in_try(module: Node) -> str:
+    try:
+        return module[: module.index(".")]
+    except ValueError:
+        return module
